@@ -447,6 +447,8 @@ class ExprMixin:
             return PyTuple([z3.IntVal(3), z3.IntVal(12)])
         if c.name == "ast":
             return PyConst("ast." + attr)
+        if c.name == "textwrap" and attr == "dedent":
+            return PyConst("textwrap.dedent")
         return None
 
     def e_Subscript(self, e, st):
